@@ -93,7 +93,14 @@ pub fn gen(rng: &mut Rng, tier: Tier, out: &mut Vec<String>) {
             body += &format!(" {} {} {}", t[0], t[1], t[2]);
         }
         // a second call re-drawing triangle 0 makes depth-test predicates and stats accumulate
-        body += &format!(" h 2 n {} {} n 1 0", ntris, (0..ntris).map(|x| x.to_string()).collect::<Vec<_>>().join(" "));
+        // (all calls of a history share one Context). Every third scene starts with one or two calls
+        // that submit NOTHING (the counters of the context are still all zero when real work arrives).
+        let all = (0..ntris).map(|x| x.to_string()).collect::<Vec<_>>().join(" ");
+        body += &match i % 3 {
+            0 => format!(" h 2 n {ntris} {all} n 1 0"),
+            1 => format!(" h 3 n 0 n {ntris} {all} n 1 0"),
+            _ => format!(" h 4 n 0 n 0 n {ntris} {all} n 1 0"),
+        };
         let zinit = *rng.pick(&[0.0f32, 0.4]);
         // a third of the scenes use a y-up (mirrored) viewport: viewport(pt2(l, b)..pt2(r, t))
         let hdr = if i % 3 == 2 {
